@@ -377,6 +377,9 @@ func CheckC12(c *Ctx) {
 	}
 	var procCall *ast.CallExpr
 	var procIf *ast.IfStmt
+	// a start date computed by an unexported helper is analysed as if its body stood in the loop
+	loop = &ast.RangeStmt{For: loop.For, Key: loop.Key, Value: loop.Value, Tok: loop.Tok, X: loop.X, Body: &ast.BlockStmt{Lbrace: loop.Body.Lbrace, Rbrace: loop.Body.Rbrace, List: c.inlineValueCalls(info, loop.Body.List, true)}}
+	procBody = loop.Body
 	hasLastDate := false
 	ast.Inspect(loop.Body, func(n ast.Node) bool {
 		if call, ok := n.(*ast.CallExpr); ok && strings.HasSuffix(calleeName(info, call), ".LastDate") {
@@ -447,7 +450,7 @@ func CheckC12(c *Ctx) {
 		return ok && obj != nil && procInfo.ObjectOf(id) == obj
 	}
 	// start-date rule
-	var lastDateObj types.Object
+	var lastDateObj, startObj types.Object
 	startOK := false
 	loopBody := loop.Body
 	loop = &ast.RangeStmt{For: loop.For, Key: loop.Key, Value: loop.Value, Tok: loop.Tok, X: loop.X, Body: procBody}
@@ -481,31 +484,41 @@ func CheckC12(c *Ctx) {
 				if orient < 0 {
 					okBranch, failBranch = is.Else, is.Body
 				}
-				thenOK, elseOK := false, false
+				// the start variable is what both branches assign: last date + 1 day / the default
+				var startThen, startElse types.Object
 				ast.Inspect(okBranch, func(n ast.Node) bool {
-					if call, ok := n.(*ast.CallExpr); ok && calleeName(info, call) == "time.(Time).AddDate" && len(call.Args) == 3 {
+					as2, ok := n.(*ast.AssignStmt)
+					if !ok || len(as2.Lhs) != 1 || len(as2.Rhs) != 1 {
+						return true
+					}
+					l, isID := as2.Lhs[0].(*ast.Ident)
+					call, isCall := ast.Unparen(as2.Rhs[0]).(*ast.CallExpr)
+					if isID && isCall && calleeName(info, call) == "time.(Time).AddDate" && len(call.Args) == 3 {
 						y, _ := constInt(info, call.Args[0])
 						m, _ := constInt(info, call.Args[1])
 						d, okd := constInt(info, call.Args[2])
 						if okd && y == 0 && m == 0 && d == 1 && usesObj(info, call.Fun, lastDateObj) {
-							thenOK = true
+							startThen = info.ObjectOf(l)
 						}
 					}
 					return true
 				})
 				ast.Inspect(failBranch, func(n ast.Node) bool {
 					if as2, ok := n.(*ast.AssignStmt); ok && len(as2.Lhs) == 1 && len(as2.Rhs) == 1 {
-						if l, ok := as2.Lhs[0].(*ast.Ident); ok && info.Uses[l] == lastDateObj {
+						if l, ok := as2.Lhs[0].(*ast.Ident); ok {
 							if r, ok := as2.Rhs[0].(*ast.Ident); ok {
 								if v, ok := info.Uses[r].(*types.Var); ok && (types.Object(v) == defaultObj || (procIf == nil && isParamOf(fi, v))) {
-									elseOK = true
+									startElse = info.ObjectOf(l)
 								}
 							}
 						}
 					}
 					return true
 				})
-				startOK = thenOK && elseOK
+				startOK = startThen != nil && startThen == startElse
+				if startOK {
+					startObj = startThen
+				}
 			}
 		}
 	}
@@ -527,7 +540,7 @@ func CheckC12(c *Ctx) {
 		}
 		name := calleeName(info, call)
 		if strings.HasSuffix(name, ".GetSince") && len(call.Args) == 2 && isRecv(call.Fun, sourceObj) {
-			if id, ok := call.Args[1].(*ast.Ident); ok && info.Uses[id] == lastDateObj {
+			if id, ok := call.Args[1].(*ast.Ident); ok && startObj != nil && info.Uses[id] == startObj {
 				if l, ok := as.Lhs[0].(*ast.Ident); ok {
 					snapsObj = info.Defs[l]
 				}
